@@ -128,6 +128,11 @@ class Phys:
         self.u = ureg
         self._root = {}
 
+    def defn(self, name):
+        """definition of a unit name as it appears in a container (canonical, alias or prefixed): name resolution
+        only (C08), which also registers a prefixed name on first use — no conversion code"""
+        return self.u._units[self.u.get_name(name)]
+
     def root(self, units):
         key = tuple(sorted(units.items()))
         if key in self._root:
@@ -138,7 +143,7 @@ class Phys:
         def rec(name, e, depth=0):
             if depth > 60:
                 raise Inexact(name)
-            d = self.u._units[self.u.get_name(name)]      # name resolution only (C08), no conversion code
+            d = self.defn(name)
             if d.is_base:
                 root[d.name] = root.get(d.name, 0) + e
                 return
@@ -170,13 +175,13 @@ class Phys:
             return None
         out = {}
         for b, e in r[1].items():
-            for dname, dv in self.u._units[b].reference.items():
+            for dname, dv in self.defn(b).reference.items():
                 if dname != "[]":
                     out[dname] = out.get(dname, 0) + e * F(dv)
         return frozenset((k, v) for k, v in out.items() if v != 0)
 
     def nonmult(self, units):
-        return [k for k in units if not self.u._units[k].is_multiplicative]
+        return [k for k in units if not self.defn(k).is_multiplicative]
 
     def value(self, m, units):
         """(dimension, magnitude in root units) — absolute for a single offset unit; None outside
@@ -190,7 +195,7 @@ class Phys:
                 return None
             return (self.dim(units), F(m) * r[0])
         if len(units) == 1 and units[nm[0]] == 1:
-            d = self.u._units[nm[0]]
+            d = self.defn(nm[0])
             cv = d.converter
             if type(cv).__name__ != "OffsetConverter":
                 return None
@@ -220,7 +225,7 @@ class Phys:
             return False
 
         def strip(r):
-            return {k: v for k, v in r.items() if set(self.u._units[k].reference) != {"[]"}}
+            return {k: v for k, v in r.items() if set(self.defn(k).reference) != {"[]"}}
         return ra[1] != rb[1] and strip(ra[1]) == strip(rb[1])
 
 
@@ -608,264 +613,281 @@ def run(ck):
                 rows.append((x, y + F(1, 7)))          # just beside the tie
         return rows
 
-    # ---- (1) same-dimension pairs of rational canonical multiplicative units
-    pairs = [(a, b) for cl in classes.values() for a in cl for b in cl]
-    ck.extra["same_dimension_pairs_total"] = len(pairs)
-    small = {d: cl for d, cl in classes.items() if not d}
-    chosen = pairs if thorough else rng.sample(pairs, 320)
-    for a, b in chosen:
-        do_pair({a: F(1)}, {b: F(1)}, std_rows({a: F(1)}, {b: F(1)}), "same-dim")
-    # reflexivity on the very same object and on a copy
-    for n in (rational if thorough else rng.sample(rational, 120)):
-        for x in (0, 1, F(-7, 3)):
-            q1 = w.q(x, {n: F(1)})
-            if Obs(lambda: bool(q1 == q1) and bool(q1 == w.q(x, {n: F(1)})) and hash(q1) == hash(w.q(x, {n: F(1)}))).val is not True:
-                fails.append((f"reflexivity:other:{n},{n}", f"{x} {n} is not equal to itself / hash unstable", {"law": "pair", "a": [mstr(x), {n: "1"}], "b": [mstr(x), {n: "1"}]}))
-            ck.case(key=("refl", n, mstr(x)))
-    ck.count("reflexivity")
+    stage = ['setup']
+    try:
+        # ---- (1) same-dimension pairs of rational canonical multiplicative units
+        stage[0] = '(1) same-dimension pairs of rational canonical multiplicative u'
+        pairs = [(a, b) for cl in classes.values() for a in cl for b in cl]
+        ck.extra["same_dimension_pairs_total"] = len(pairs)
+        small = {d: cl for d, cl in classes.items() if not d}
+        chosen = pairs if thorough else rng.sample(pairs, 320)
+        for a, b in chosen:
+            do_pair({a: F(1)}, {b: F(1)}, std_rows({a: F(1)}, {b: F(1)}), "same-dim")
+        # reflexivity on the very same object and on a copy
+        for n in (rational if thorough else rng.sample(rational, 120)):
+            for x in (0, 1, F(-7, 3)):
+                q1 = w.q(x, {n: F(1)})
+                if Obs(lambda: bool(q1 == q1) and bool(q1 == w.q(x, {n: F(1)})) and hash(q1) == hash(w.q(x, {n: F(1)}))).val is not True:
+                    fails.append((f"reflexivity:other:{n},{n}", f"{x} {n} is not equal to itself / hash unstable", {"law": "pair", "a": [mstr(x), {n: "1"}], "b": [mstr(x), {n: "1"}]}))
+                ck.case(key=("refl", n, mstr(x)))
+        ck.count("reflexivity")
 
-    # ---- (2) offset and delta units: every ordered pair x magnitudes
-    temps = [t for t in OFFSET_FAMILY if t in ureg._units]
-    special = [0, 1, -1, F(3, 2), F(27315, 100), F(-27315, 100), F(-45967, 100), 32, F(49167, 100), F(-21852, 100), 100, 212, 80, 373]
-    for a in temps:
-        for b in temps:
-            ua, ub = {a: F(1)}, {b: F(1)}
-            rows = [(x, x) for x in special[:6]] + [(0, 1), (NAN, 0), (0, NAN)]
-            for x in (special if thorough else special[:5] + rng.sample(special[5:], 2)):
-                y = ph.equalise(x, ua, ub)
-                if y is not None:
-                    rows += [(x, y), (x, y + 1)]
-            # values equal through kelvin although == refuses the conversion (delta vs offset)
-            do_pair(ua, ub, rows, "offset-delta")
-    # offset units in compound position: only error classes / shortcut answers
-    for a in ("degree_Celsius", "degree_Fahrenheit"):
-        for other in ({"meter": F(1)}, {"kelvin": F(-1)}):
-            ua = {a: F(1), **other}
-            ub = {"kelvin": F(1), **other}
-            ub = {k: v for k, v in ub.items() if v != 0}
-            do_pair(ua, ub, [(0, 0), (1, 1), (1, 2)], "offset-compound", want_hash=False)
-            do_pair(ub, ua, [(0, 0), (1, 1)], "offset-compound", want_hash=False)
-        do_pair({a: F(2)}, {"kelvin": F(2)}, [(0, 0), (1, 1)], "offset-compound", want_hash=False)
+        # ---- (2) offset and delta units: every ordered pair x magnitudes
+        stage[0] = '(2) offset and delta units: every ordered pair x magnitudes'
+        temps = [t for t in OFFSET_FAMILY if t in ureg._units]
+        special = [0, 1, -1, F(3, 2), F(27315, 100), F(-27315, 100), F(-45967, 100), 32, F(49167, 100), F(-21852, 100), 100, 212, 80, 373]
+        for a in temps:
+            for b in temps:
+                ua, ub = {a: F(1)}, {b: F(1)}
+                rows = [(x, x) for x in special[:6]] + [(0, 1), (NAN, 0), (0, NAN)]
+                for x in (special if thorough else special[:5] + rng.sample(special[5:], 2)):
+                    y = ph.equalise(x, ua, ub)
+                    if y is not None:
+                        rows += [(x, y), (x, y + 1)]
+                # values equal through kelvin although == refuses the conversion (delta vs offset)
+                do_pair(ua, ub, rows, "offset-delta")
+        # offset units in compound position: only error classes / shortcut answers
+        for a in ("degree_Celsius", "degree_Fahrenheit"):
+            for other in ({"meter": F(1)}, {"kelvin": F(-1)}):
+                ua = {a: F(1), **other}
+                ub = {"kelvin": F(1), **other}
+                ub = {k: v for k, v in ub.items() if v != 0}
+                do_pair(ua, ub, [(0, 0), (1, 1), (1, 2)], "offset-compound", want_hash=False)
+                do_pair(ub, ua, [(0, 0), (1, 1)], "offset-compound", want_hash=False)
+            do_pair({a: F(2)}, {"kelvin": F(2)}, [(0, 0), (1, 1)], "offset-compound", want_hash=False)
 
-    # ---- (3) dimensionless families, incl. the empty container
-    dl = [{n: F(1)} for n in classes.get(frozenset(), [])] + [{}]
-    fam = [u for u in dl if not u or list(u)[0] in ("radian", "count", "bit", "percent", "ppm", "steradian", "byte", "permille", "turn", "revolution")]
-    for ua in (dl if thorough else fam):
-        for ub in (dl if thorough else fam):
-            do_pair(ua, ub, std_rows(ua, ub), "dimensionless")
-    # ---- (4) compound units and the same unit times a dimensionless base unit (F2's shape)
-    ints = [F(-2), F(-1), F(1), F(2), F(3)]
-    dimless_base = [n for n in rational if ureg._units[n].is_base and set(ureg._units[n].reference) == {"[]"}]
-    ck.extra["dimensionless_base_units"] = dimless_base
-    for _ in range(700 if thorough else 110):
-        da = {}
-        for _ in range(rng.randint(1, 3)):
-            da[rng.choice(rational)] = rng.choice(ints)
-        db = {}
-        for k, v in da.items():
-            alt = rng.choice(classes[ph.dim({k: F(1)})])
-            db[alt] = db.get(alt, 0) + v
-        db = {k: v for k, v in db.items() if v != 0}
-        if rng.random() < 0.4:
-            k = rng.choice(dimless_base)
-            db[k] = db.get(k, 0) + rng.choice([F(1), F(-1), F(2)])
+        # ---- (3) dimensionless families, incl. the empty container
+        stage[0] = '(3) dimensionless families, incl. the empty container'
+        dl = [{n: F(1)} for n in classes.get(frozenset(), [])] + [{}]
+        fam = [u for u in dl if not u or list(u)[0] in ("radian", "count", "bit", "percent", "ppm", "steradian", "byte", "permille", "turn", "revolution")]
+        for ua in (dl if thorough else fam):
+            for ub in (dl if thorough else fam):
+                do_pair(ua, ub, std_rows(ua, ub), "dimensionless")
+        # ---- (4) compound units and the same unit times a dimensionless base unit (F2's shape)
+        stage[0] = '(4) compound units and the same unit times a dimensionless base'
+        ints = [F(-2), F(-1), F(1), F(2), F(3)]
+        dimless_base = [n for n in rational if ureg._units[n].is_base and set(ureg._units[n].reference) == {"[]"}]
+        ck.extra["dimensionless_base_units"] = dimless_base
+        for _ in range(700 if thorough else 110):
+            da = {}
+            for _ in range(rng.randint(1, 3)):
+                da[rng.choice(rational)] = rng.choice(ints)
+            db = {}
+            for k, v in da.items():
+                alt = rng.choice(classes[ph.dim({k: F(1)})])
+                db[alt] = db.get(alt, 0) + v
             db = {k: v for k, v in db.items() if v != 0}
-        do_pair(da, db, std_rows(da, db), "compound")
-    for n, k in [("hertz", "becquerel"), ("meter", None), ("newton", None), ("second", None)]:
-        ua = {n: F(1)}
-        for b in ([{k: F(1)}] if k else [{n: F(1), d: F(1)} for d in dimless_base]):
-            do_pair(ua, b, std_rows(ua, b), "dimless-base")
-            do_pair(b, ua, std_rows(b, ua), "dimless-base")
+            if rng.random() < 0.4:
+                k = rng.choice(dimless_base)
+                db[k] = db.get(k, 0) + rng.choice([F(1), F(-1), F(2)])
+                db = {k: v for k, v in db.items() if v != 0}
+            do_pair(da, db, std_rows(da, db), "compound")
+        for n, k in [("hertz", "becquerel"), ("meter", None), ("newton", None), ("second", None)]:
+            ua = {n: F(1)}
+            for b in ([{k: F(1)}] if k else [{n: F(1), d: F(1)} for d in dimless_base]):
+                do_pair(ua, b, std_rows(ua, b), "dimless-base")
+                do_pair(b, ua, std_rows(b, ua), "dimless-base")
 
-    # ---- (5) cross-dimension pairs
-    reps = [cl[0] for cl in classes.values()]
-    for _ in range(600 if thorough else 120):
-        a, b = rng.sample(rational, 2)
-        if ph.dim({a: F(1)}) == ph.dim({b: F(1)}):
-            continue
-        do_pair({a: F(1)}, {b: F(1)}, [(0, 0), (1, 1), (0, 1), (NAN, 1)], "cross-dim", want_hash=False)
-    for t in ("degree_Celsius", "delta_degree_Celsius"):
-        do_pair({t: F(1)}, {"meter": F(1)}, [(0, 0), (1, 1)], "cross-dim", want_hash=False)
-        do_pair({"meter": F(1)}, {t: F(1)}, [(0, 0), (1, 1)], "cross-dim", want_hash=False)
+        # ---- (5) cross-dimension pairs
+        stage[0] = '(5) cross-dimension pairs'
+        reps = [cl[0] for cl in classes.values()]
+        for _ in range(600 if thorough else 120):
+            a, b = rng.sample(rational, 2)
+            if ph.dim({a: F(1)}) == ph.dim({b: F(1)}):
+                continue
+            do_pair({a: F(1)}, {b: F(1)}, [(0, 0), (1, 1), (0, 1), (NAN, 1)], "cross-dim", want_hash=False)
+        for t in ("degree_Celsius", "delta_degree_Celsius"):
+            do_pair({t: F(1)}, {"meter": F(1)}, [(0, 0), (1, 1)], "cross-dim", want_hash=False)
+            do_pair({"meter": F(1)}, {t: F(1)}, [(0, 0), (1, 1)], "cross-dim", want_hash=False)
 
-    # ---- (6) bare numbers, None, bool(), to_root_units
-    numbers = [0, 1, -1, F(3, 2), NAN, F(1, 100), 200, None]
-    qs = [({n: F(1)}) for n in (rational if thorough else rng.sample(rational, 30))] + fam + [{t: F(1)} for t in temps]
-    for ua in qs:
-        for x in (0, 1, F(3, 2), NAN):
-            a = (x, ua)
-            qa = w.q(x, ua)
-            ob = Obs(lambda: plain_bool(bool(qa)))
-            add(f"KBool {coq_qty(x, ua)} {ob.coq(coq_bool)}", {"bool": [mstr(x), ustr(ua)]})
-            if not ph.nonmult(ua) and (ob.err or ob.val != (isnan(x) or x != 0)):
-                fails.append((f"bool:other:{ustr(ua)},-", f"bool({mstr(x)} {ustr(ua)}) is {ob.js()}", {"law": "bool", "a": [mstr(x), {k: str(v) for k, v in ua.items()}]}))
-            orr = Obs(lambda: qa.to_root_units())
-            if orr.err:
-                add(f"KToRoot {coq_qty(x, ua)} (Raised {orr.err}) (mkuc [])", {"to_root": [mstr(x), ustr(ua)]})
+        # ---- (6) bare numbers, None, bool(), to_root_units
+        stage[0] = '(6) bare numbers, None, bool(), to_root_units'
+        numbers = [0, 1, -1, F(3, 2), NAN, F(1, 100), 200, None]
+        qs = [({n: F(1)}) for n in (rational if thorough else rng.sample(rational, 30))] + fam + [{t: F(1)} for t in temps]
+        for ua in qs:
+            for x in (0, 1, F(3, 2), NAN):
+                a = (x, ua)
+                qa = w.q(x, ua)
+                ob = Obs(lambda: plain_bool(bool(qa)))
+                add(f"KBool {coq_qty(x, ua)} {ob.coq(coq_bool)}", {"bool": [mstr(x), ustr(ua)]})
+                if not ph.nonmult(ua) and (ob.err or ob.val != (isnan(x) or x != 0)):
+                    fails.append((f"bool:other:{ustr(ua)},-", f"bool({mstr(x)} {ustr(ua)}) is {ob.js()}", {"law": "bool", "a": [mstr(x), {k: str(v) for k, v in ua.items()}]}))
+                orr = Obs(lambda: qa.to_root_units())
+                if orr.err:
+                    add(f"KToRoot {coq_qty(x, ua)} (Raised {orr.err}) (mkuc [])", {"to_root": [mstr(x), ustr(ua)]})
+                else:
+                    mg = orr.val.magnitude
+                    add(f"KToRoot {coq_qty(x, ua)} (Got {coq_mag(mg)}) {coq_units(regk.ucd(orr.val._units))}", {"to_root": [mstr(x), ustr(ua)]})
+                ck.case(key=("bool/root", ustr(ua), mstr(x)))
+                pv = ph.value(x, ua)
+                ns = list(numbers)
+                if pv is not None and not pv[0]:
+                    ns.append(pv[1])
+                for n in ns:
+                    oeq = Obs(lambda: plain_bool(qa == n))
+                    one = Obs(lambda: plain_bool(qa != n))
+                    ocmp = Obs(lambda: cmp4(qa, n))
+                    add(f"KNum {coq_qty(x, ua)} {operand_term(n)} {oeq.coq(coq_bool)} {one.coq(coq_bool)} {ocmp.coq(coq_cmp4)}",
+                        {"number": [mstr(x), ustr(ua), "None" if n is None else mstr(n)]})
+                    if n is not None:
+                        record(w.number_laws(a, n, oeq, one, ocmp), {"law": "number", "a": [mstr(x), {k: str(v) for k, v in ua.items()}], "n": mstr(n)})
+                    ck.case(key=("num", ustr(ua), mstr(x), "None" if n is None else mstr(n)))
+                    ck.count("number:" + (ocmp.err or "ok"))
+
+        # ---- (7) Unit-level ==, <
+        stage[0] = '(7) Unit-level ==, <'
+        upairs = rng.sample(pairs, 500 if thorough else 80) + [(a, b) for a in temps for b in temps] + \
+            [tuple(rng.sample(rational, 2)) for _ in range(200 if thorough else 30)]
+        unit_vs_number_done = set()
+        for a, b in upairs:
+            U, V = w.unit({a: F(1)}), w.unit({b: F(1)})
+            oe = Obs(lambda: plain_bool(U == V))
+            oc = Obs(lambda: cmp4(U, V))
+            add(f"KUnitEq {coq_units({a: F(1)})} (UUnit {coq_units({b: F(1)})}) {oe.coq(coq_bool)}", {"unit_eq": [a, b]})
+            add(f"KUnitCmp {coq_units({a: F(1)})} (UUnit {coq_units({b: F(1)})}) {oc.coq(coq_cmp4)}", {"unit_cmp": [a, b]})
+            if oe.err or oe.val != (a == b):
+                fails.append((f"unit-eq:other:{a},{b}", f"Unit == Unit is {oe.js()}", {"law": "unit", "a": a, "b": b}))
+            pa, pb = ph.value(1, {a: F(1)}), ph.value(1, {b: F(1)})
+            if pa is not None and pb is not None:
+                reg = region(ph, (1, {a: F(1)}), (1, {b: F(1)}))
+                if pa[0] != pb[0]:
+                    if oc.err != "XDim":
+                        fails.append((f"unit-order:{reg}:{a},{b}", f"Unit ordering across dimensions gave {oc.js()}", {"law": "unit", "a": a, "b": b}))
+                elif not (ph.positive({a: F(1)}) and ph.positive({b: F(1)})):
+                    pass                                   # negatively scaled units: outside the ordering clause
+                elif oc.err or oc.val != (pa[1] < pb[1], pa[1] <= pb[1], pa[1] > pb[1], pa[1] >= pb[1]):
+                    fails.append((f"unit-order:{reg}:{a},{b}", f"Unit ordering is {oc.js()} for sizes {pa[1]}, {pb[1]}", {"law": "unit", "a": a, "b": b}))
+            # Unit == Quantity and Unit == number
+            y = ph.equalise(1, {a: F(1)}, {b: F(1)})
+            for m in ([1] if y is None else [1, y]):
+                qb = w.q(m, {b: F(1)})
+                oq = Obs(lambda: plain_bool(U == qb))
+                add(f"KUnitEq {coq_units({a: F(1)})} (UQty {coq_qty(m, {b: F(1)})}) {oq.coq(coq_bool)}", {"unit_eq_qty": [a, mstr(m), b]})
+                pq = ph.value(m, {b: F(1)})
+                if pa is not None and pq is not None and region(ph, (1, {a: F(1)}), (m, {b: F(1)})) == "other" and (oq.err or oq.val != (pa == pq)):
+                    fails.append((f"unit-eq:other:{a},{b}", f"Unit == Quantity is {oq.js()}", {"law": "unit", "a": a, "b": b}))
+            for n in ((0, 1, NAN) if a not in unit_vs_number_done else ()):
+                on = Obs(lambda: plain_bool(U == n))
+                ocn = Obs(lambda: cmp4(U, n))
+                add(f"KUnitEq {coq_units({a: F(1)})} (UNum {coq_mag(n)}) {on.coq(coq_bool)}", {"unit_eq_num": [a, mstr(n)]})
+                add(f"KUnitCmp {coq_units({a: F(1)})} (UNum {coq_mag(n)}) {ocn.coq(coq_cmp4)}", {"unit_cmp_num": [a, mstr(n)]})
+            unit_vs_number_done.add(a)
+            ck.case(key=("unit", a, b))
+        ck.count("unit-level", len(upairs))
+
+        # ---- (8) random triples for transitivity (oracle on pint alone)
+        stage[0] = '(8) random triples for transitivity (oracle on pint alone)'
+        pools = [cl for cl in classes.values() if len(cl) >= 3]
+        ntr = 0
+        for i in range(20000 if thorough else 2500):
+            mode = rng.random()
+            if mode < 0.25:
+                names = [rng.choice(temps) for _ in range(3)]
+            elif mode < 0.35:
+                base = rng.choice(rational)
+                names = None
+                us = [{base: F(1)}] + [dict({base: F(1)}, **{rng.choice(dimless_base): F(1)}) for _ in range(2)]
+                rng.shuffle(us)
             else:
-                mg = orr.val.magnitude
-                add(f"KToRoot {coq_qty(x, ua)} (Got {coq_mag(mg)}) {coq_units(regk.ucd(orr.val._units))}", {"to_root": [mstr(x), ustr(ua)]})
-            ck.case(key=("bool/root", ustr(ua), mstr(x)))
-            pv = ph.value(x, ua)
-            ns = list(numbers)
-            if pv is not None and not pv[0]:
-                ns.append(pv[1])
-            for n in ns:
-                oeq = Obs(lambda: plain_bool(qa == n))
-                one = Obs(lambda: plain_bool(qa != n))
-                ocmp = Obs(lambda: cmp4(qa, n))
-                add(f"KNum {coq_qty(x, ua)} {operand_term(n)} {oeq.coq(coq_bool)} {one.coq(coq_bool)} {ocmp.coq(coq_cmp4)}",
-                    {"number": [mstr(x), ustr(ua), "None" if n is None else mstr(n)]})
-                if n is not None:
-                    record(w.number_laws(a, n, oeq, one, ocmp), {"law": "number", "a": [mstr(x), {k: str(v) for k, v in ua.items()}], "n": mstr(n)})
-                ck.case(key=("num", ustr(ua), mstr(x), "None" if n is None else mstr(n)))
-                ck.count("number:" + (ocmp.err or "ok"))
+                names = rng.sample(rng.choice(pools), 3)
+            if names is not None:
+                us = [{n: F(1)} for n in names]
+            x = rng.choice([0, 0, 1, -1, F(3, 2), F(27315, 100), rng.randint(-500, 500), F(rng.randint(-99, 99), rng.randint(1, 12))])
+            qs3 = [(x, us[0])]
+            for u in us[1:]:
+                y = ph.equalise(x, us[0], u)
+                r = rng.random()
+                if y is None or r < 0.1:
+                    y = x
+                elif r < 0.2:
+                    y = 0
+                qs3.append((y, u))
+            Q3 = [w.q(*t) for t in qs3]
+            e = [[None] * 3 for _ in range(3)]
+            raised = False
+            for i1 in range(3):
+                for j1 in range(3):
+                    oe = Obs(lambda: plain_bool(Q3[i1] == Q3[j1]))
+                    e[i1][j1] = oe.val
+                    if oe.err:
+                        raised = True
+                        fails.append((f"eq-raises:{region(ph, qs3[i1], qs3[j1])}:{ustr(qs3[i1][1])},{ustr(qs3[j1][1])}",
+                                      f"== raised {oe.err} instead of returning a bool; a = {mstr(qs3[i1][0])} [{ustr(qs3[i1][1])}], b = {mstr(qs3[j1][0])} [{ustr(qs3[j1][1])}]",
+                                      {"law": "pair", "a": [mstr(qs3[i1][0]), {k: str(v) for k, v in qs3[i1][1].items()}],
+                                       "b": [mstr(qs3[j1][0]), {k: str(v) for k, v in qs3[j1][1].items()}]}))
+            if raised:
+                continue
+            ntr += 1
+            ck.case(key=("triple", tuple(ustr(u) for u in us), tuple(mstr(t[0]) for t in qs3)))
+            for (i1, j1, k1) in ((0, 1, 2), (1, 0, 2), (0, 2, 1), (2, 1, 0), (1, 2, 0), (2, 0, 1)):
+                if e[i1][j1] and e[j1][k1] and not e[i1][k1]:
+                    # attribute the failure to the pair(s) on which == departs from physical equality
+                    dev = []
+                    for (p, q) in ((i1, j1), (j1, k1), (i1, k1)):
+                        pp, pq_ = ph.value(*qs3[p]), ph.value(*qs3[q])
+                        if pp is not None and pq_ is not None and e[p][q] != (pp == pq_):
+                            dev.append((p, q))
+                    rp = {"law": "triple", "qs": [[mstr(t[0]), {k: str(v) for k, v in t[1].items()}] for t in qs3]}
+                    desc = (f"a == b and b == c but a != c for a = {mstr(qs3[i1][0])} [{ustr(qs3[i1][1])}], "
+                            f"b = {mstr(qs3[j1][0])} [{ustr(qs3[j1][1])}], c = {mstr(qs3[k1][0])} [{ustr(qs3[k1][1])}]")
+                    if not dev:
+                        fails.append((f"transitivity:other:{ustr(qs3[i1][1])},{ustr(qs3[k1][1])}", desc, rp))
+                    for (p, q) in dev:
+                        fails.append((f"transitivity:{region(ph, qs3[p], qs3[q])}:{ustr(qs3[p][1])},{ustr(qs3[q][1])}", desc, rp))
+                    break
+            # every true == must come with equal hashes
+            for i1 in range(3):
+                for j1 in range(i1 + 1, 3):
+                    if e[i1][j1] and Obs(lambda: hash(Q3[i1]) == hash(Q3[j1])).val is not True:
+                        o = {"eq": Obs(lambda: True), "eq_rev": Obs(lambda: e[j1][i1]), "ne": Obs(lambda: False),
+                             "cmp": Obs(lambda: cmp4(Q3[i1], Q3[j1])), "hash_eq": False}
+                        fl = [kd for kd in w.pair_laws(qs3[i1], qs3[j1], o) if kd[0].startswith("hash:")]
+                        record(fl, {"law": "pair", "a": [mstr(qs3[i1][0]), {k: str(v) for k, v in qs3[i1][1].items()}],
+                                    "b": [mstr(qs3[j1][0]), {k: str(v) for k, v in qs3[j1][1].items()}]})
+        ck.count("triples", ntr)
 
-    # ---- (7) Unit-level ==, <
-    upairs = rng.sample(pairs, 500 if thorough else 80) + [(a, b) for a in temps for b in temps] + \
-        [tuple(rng.sample(rational, 2)) for _ in range(200 if thorough else 30)]
-    unit_vs_number_done = set()
-    for a, b in upairs:
-        U, V = w.unit({a: F(1)}), w.unit({b: F(1)})
-        oe = Obs(lambda: plain_bool(U == V))
-        oc = Obs(lambda: cmp4(U, V))
-        add(f"KUnitEq {coq_units({a: F(1)})} (UUnit {coq_units({b: F(1)})}) {oe.coq(coq_bool)}", {"unit_eq": [a, b]})
-        add(f"KUnitCmp {coq_units({a: F(1)})} (UUnit {coq_units({b: F(1)})}) {oc.coq(coq_cmp4)}", {"unit_cmp": [a, b]})
-        if oe.err or oe.val != (a == b):
-            fails.append((f"unit-eq:other:{a},{b}", f"Unit == Unit is {oe.js()}", {"law": "unit", "a": a, "b": b}))
-        pa, pb = ph.value(1, {a: F(1)}), ph.value(1, {b: F(1)})
-        if pa is not None and pb is not None:
-            reg = region(ph, (1, {a: F(1)}), (1, {b: F(1)}))
-            if pa[0] != pb[0]:
-                if oc.err != "XDim":
-                    fails.append((f"unit-order:{reg}:{a},{b}", f"Unit ordering across dimensions gave {oc.js()}", {"law": "unit", "a": a, "b": b}))
-            elif not (ph.positive({a: F(1)}) and ph.positive({b: F(1)})):
-                pass                                   # negatively scaled units: outside the ordering clause
-            elif oc.err or oc.val != (pa[1] < pb[1], pa[1] <= pb[1], pa[1] > pb[1], pa[1] >= pb[1]):
-                fails.append((f"unit-order:{reg}:{a},{b}", f"Unit ordering is {oc.js()} for sizes {pa[1]}, {pb[1]}", {"law": "unit", "a": a, "b": b}))
-        # Unit == Quantity and Unit == number
-        y = ph.equalise(1, {a: F(1)}, {b: F(1)})
-        for m in ([1] if y is None else [1, y]):
-            qb = w.q(m, {b: F(1)})
-            oq = Obs(lambda: plain_bool(U == qb))
-            add(f"KUnitEq {coq_units({a: F(1)})} (UQty {coq_qty(m, {b: F(1)})}) {oq.coq(coq_bool)}", {"unit_eq_qty": [a, mstr(m), b]})
-            pq = ph.value(m, {b: F(1)})
-            if pa is not None and pq is not None and region(ph, (1, {a: F(1)}), (m, {b: F(1)})) == "other" and (oq.err or oq.val != (pa == pq)):
-                fails.append((f"unit-eq:other:{a},{b}", f"Unit == Quantity is {oq.js()}", {"law": "unit", "a": a, "b": b}))
-        for n in ((0, 1, NAN) if a not in unit_vs_number_done else ()):
-            on = Obs(lambda: plain_bool(U == n))
-            ocn = Obs(lambda: cmp4(U, n))
-            add(f"KUnitEq {coq_units({a: F(1)})} (UNum {coq_mag(n)}) {on.coq(coq_bool)}", {"unit_eq_num": [a, mstr(n)]})
-            add(f"KUnitCmp {coq_units({a: F(1)})} (UNum {coq_mag(n)}) {ocn.coq(coq_cmp4)}", {"unit_cmp_num": [a, mstr(n)]})
-        unit_vs_number_done.add(a)
-        ck.case(key=("unit", a, b))
-    ck.count("unit-level", len(upairs))
+        # ---- (9) float registry: order away from ties
+        stage[0] = '(9) float registry: order away from ties'
+        wf_ = World(float)
+        nfl = 0
+        for _ in range(6000 if thorough else 1200):
+            a, b = rng.choice(pairs)
+            x, y = rng.uniform(-1e3, 1e3), rng.uniform(-1e3, 1e3)
+            if rng.random() < 0.5:
+                ye = ph.equalise(F(x), {a: F(1)}, {b: F(1)})
+                if ye is not None:
+                    try:
+                        y = float(ye) * rng.choice([1 + 1e-6, 1 - 1e-6, 1.5, 0.5])
+                    except OverflowError:
+                        continue
+            pa, pb = ph.value(F(x), {a: F(1)}), ph.value(F(y), {b: F(1)})
+            if pa is None or pb is None or not (ph.positive({a: F(1)}) and ph.positive({b: F(1)})):
+                continue
+            big = max(abs(pa[1]), abs(pb[1]))
+            if big == 0 or abs(pa[1] - pb[1]) <= big * F(1, 10 ** 9):
+                continue                                       # a tie (within 1e-9 relative): not decided in floats
+            qa, qb = wf_.q(x, {a: F(1)}), wf_.q(y, {b: F(1)})
+            try:
+                got = (bool(qa < qb), bool(qa == qb), bool(qa > qb), bool(qa <= qb), bool(qa >= qb))
+            except Exception as ex:           # noqa: BLE001
+                got = type(ex).__name__
+            exp = (pa[1] < pb[1], False, pa[1] > pb[1], pa[1] < pb[1], pa[1] > pb[1])
+            nfl += 1
+            ck.case(key=("float", a, b, x, y))
+            if got != exp:
+                fails.append((f"float-order:other:{a},{b}", f"float registry: (<, ==, >, <=, >=) = {got} for {x!r} {a} vs {y!r} {b}; exact order says {exp}",
+                              {"law": "float", "a": [repr(x), a], "b": [repr(y), b]}))
+        ck.count("float-order", nfl)
 
-    # ---- (8) random triples for transitivity (oracle on pint alone)
-    pools = [cl for cl in classes.values() if len(cl) >= 3]
-    ntr = 0
-    for i in range(20000 if thorough else 2500):
-        mode = rng.random()
-        if mode < 0.25:
-            names = [rng.choice(temps) for _ in range(3)]
-        elif mode < 0.35:
-            base = rng.choice(rational)
-            names = None
-            us = [{base: F(1)}] + [dict({base: F(1)}, **{rng.choice(dimless_base): F(1)}) for _ in range(2)]
-            rng.shuffle(us)
-        else:
-            names = rng.sample(rng.choice(pools), 3)
-        if names is not None:
-            us = [{n: F(1)} for n in names]
-        x = rng.choice([0, 0, 1, -1, F(3, 2), F(27315, 100), rng.randint(-500, 500), F(rng.randint(-99, 99), rng.randint(1, 12))])
-        qs3 = [(x, us[0])]
-        for u in us[1:]:
-            y = ph.equalise(x, us[0], u)
-            r = rng.random()
-            if y is None or r < 0.1:
-                y = x
-            elif r < 0.2:
-                y = 0
-            qs3.append((y, u))
-        Q3 = [w.q(*t) for t in qs3]
-        e = [[None] * 3 for _ in range(3)]
-        raised = False
-        for i1 in range(3):
-            for j1 in range(3):
-                oe = Obs(lambda: plain_bool(Q3[i1] == Q3[j1]))
-                e[i1][j1] = oe.val
-                if oe.err:
-                    raised = True
-                    fails.append((f"eq-raises:{region(ph, qs3[i1], qs3[j1])}:{ustr(qs3[i1][1])},{ustr(qs3[j1][1])}",
-                                  f"== raised {oe.err} instead of returning a bool; a = {mstr(qs3[i1][0])} [{ustr(qs3[i1][1])}], b = {mstr(qs3[j1][0])} [{ustr(qs3[j1][1])}]",
-                                  {"law": "pair", "a": [mstr(qs3[i1][0]), {k: str(v) for k, v in qs3[i1][1].items()}],
-                                   "b": [mstr(qs3[j1][0]), {k: str(v) for k, v in qs3[j1][1].items()}]}))
-        if raised:
-            continue
-        ntr += 1
-        ck.case(key=("triple", tuple(ustr(u) for u in us), tuple(mstr(t[0]) for t in qs3)))
-        for (i1, j1, k1) in ((0, 1, 2), (1, 0, 2), (0, 2, 1), (2, 1, 0), (1, 2, 0), (2, 0, 1)):
-            if e[i1][j1] and e[j1][k1] and not e[i1][k1]:
-                # attribute the failure to the pair(s) on which == departs from physical equality
-                dev = []
-                for (p, q) in ((i1, j1), (j1, k1), (i1, k1)):
-                    pp, pq_ = ph.value(*qs3[p]), ph.value(*qs3[q])
-                    if pp is not None and pq_ is not None and e[p][q] != (pp == pq_):
-                        dev.append((p, q))
-                rp = {"law": "triple", "qs": [[mstr(t[0]), {k: str(v) for k, v in t[1].items()}] for t in qs3]}
-                desc = (f"a == b and b == c but a != c for a = {mstr(qs3[i1][0])} [{ustr(qs3[i1][1])}], "
-                        f"b = {mstr(qs3[j1][0])} [{ustr(qs3[j1][1])}], c = {mstr(qs3[k1][0])} [{ustr(qs3[k1][1])}]")
-                if not dev:
-                    fails.append((f"transitivity:other:{ustr(qs3[i1][1])},{ustr(qs3[k1][1])}", desc, rp))
-                for (p, q) in dev:
-                    fails.append((f"transitivity:{region(ph, qs3[p], qs3[q])}:{ustr(qs3[p][1])},{ustr(qs3[q][1])}", desc, rp))
-                break
-        # every true == must come with equal hashes
-        for i1 in range(3):
-            for j1 in range(i1 + 1, 3):
-                if e[i1][j1] and Obs(lambda: hash(Q3[i1]) == hash(Q3[j1])).val is not True:
-                    o = {"eq": Obs(lambda: True), "eq_rev": Obs(lambda: e[j1][i1]), "ne": Obs(lambda: False),
-                         "cmp": Obs(lambda: cmp4(Q3[i1], Q3[j1])), "hash_eq": False}
-                    fl = [kd for kd in w.pair_laws(qs3[i1], qs3[j1], o) if kd[0].startswith("hash:")]
-                    record(fl, {"law": "pair", "a": [mstr(qs3[i1][0]), {k: str(v) for k, v in qs3[i1][1].items()}],
-                                "b": [mstr(qs3[j1][0]), {k: str(v) for k, v in qs3[j1][1].items()}]})
-    ck.count("triples", ntr)
+        # ---- (10) every default system (incl. a live switch): == => same hash, set and dict lookup; (11) contexts
+        stage[0] = '(10) every default system (incl. a live switch): == => same has'
+        run_systems(ck, fails, thorough)
+        run_contexts(ck, fails)
 
-    # ---- (9) float registry: order away from ties
-    wf_ = World(float)
-    nfl = 0
-    for _ in range(6000 if thorough else 1200):
-        a, b = rng.choice(pairs)
-        x, y = rng.uniform(-1e3, 1e3), rng.uniform(-1e3, 1e3)
-        if rng.random() < 0.5:
-            ye = ph.equalise(F(x), {a: F(1)}, {b: F(1)})
-            if ye is not None:
-                try:
-                    y = float(ye) * rng.choice([1 + 1e-6, 1 - 1e-6, 1.5, 0.5])
-                except OverflowError:
-                    continue
-        pa, pb = ph.value(F(x), {a: F(1)}), ph.value(F(y), {b: F(1)})
-        if pa is None or pb is None or not (ph.positive({a: F(1)}) and ph.positive({b: F(1)})):
-            continue
-        big = max(abs(pa[1]), abs(pb[1]))
-        if big == 0 or abs(pa[1] - pb[1]) <= big * F(1, 10 ** 9):
-            continue                                       # a tie (within 1e-9 relative): not decided in floats
-        qa, qb = wf_.q(x, {a: F(1)}), wf_.q(y, {b: F(1)})
-        try:
-            got = (bool(qa < qb), bool(qa == qb), bool(qa > qb), bool(qa <= qb), bool(qa >= qb))
-        except Exception as ex:           # noqa: BLE001
-            got = type(ex).__name__
-        exp = (pa[1] < pb[1], False, pa[1] > pb[1], pa[1] < pb[1], pa[1] > pb[1])
-        nfl += 1
-        ck.case(key=("float", a, b, x, y))
-        if got != exp:
-            fails.append((f"float-order:other:{a},{b}", f"float registry: (<, ==, >, <=, >=) = {got} for {x!r} {a} vs {y!r} {b}; exact order says {exp}",
-                          {"law": "float", "a": [repr(x), a], "b": [repr(y), b]}))
-    ck.count("float-order", nfl)
-
-    # ---- (10) every default system (incl. a live switch): == => same hash, set and dict lookup; (11) contexts
-    run_systems(ck, fails, thorough)
-    run_contexts(ck, fails)
+    except Exception as ex:       # noqa: BLE001 — a crash of the harness itself is reported, never silent
+        import traceback
+        ck.broken.append(f"harness stream {stage[0]!r} crashed: {type(ex).__name__}: {ex}")
+        ck.build_log_tail = traceback.format_exc()[-3000:]
 
     # ---- model vs implementation
     # shuffled so that every shard gets the same mix of heavy (KPair) and light cases
